@@ -42,6 +42,22 @@ example : RowWF 6 [(0, 2), (2, -1), (3, 0), (5, 2)] ∧
   refine ⟨by decide, ?_, ?_⟩ <;>
     simp [sortRow, List.mergeSort, leAsc, densifyRow, lookupRow, List.range, List.range.loop, List.findIdx_cons]
 
+/-- **sort_coo_rows.** The whole kernel: for a 2-d coordinate list sorted by group (what `sort` hands to
+`_sort_coo` after `moveaxis`/`reshape`), every group `g` — stored or not — of the result densifies to the
+sorted dense row of group `g` of the input; the group detection loop loses and duplicates nothing. -/
+theorem sort_coo_rows (descending : Bool) (n : Nat) (fill : Int) (es : List (Nat × Nat × Int))
+    (hs : (es.map (·.1)).Pairwise (· ≤ ·)) (hrow : ∀ g, RowWF n (es.filterMap (rowOf g))) (g : Nat) :
+    densifyRow n fill ((sortCoo descending n fill es).filterMap (rowOf g))
+      = sortD descending (densifyRow n fill (es.filterMap (rowOf g)))
+    ∧ RowWF n ((sortCoo descending n fill es).filterMap (rowOf g)) := by
+  rw [sortCoo_row descending n fill es hs g]
+  exact sort_row_spec descending n fill _ (hrow g)
+
+/-- non-vacuity: three groups, the middle one without stored entries -/
+example : (([(0, 1, 5), (0, 3, -1), (2, 0, 7)] : List (Nat × Nat × Int)).map (·.1)).Pairwise (· ≤ ·) ∧
+    ∀ g, g < 3 → RowWF 4 (([(0, 1, 5), (0, 3, -1), (2, 0, 7)] : List (Nat × Nat × Int)).filterMap (rowOf g)) := by
+  decide
+
 /-! ## argmax / argmin -/
 
 /-- the full statement: the column result is the index of the first maximal element of the dense column -/
@@ -114,6 +130,48 @@ theorem argminmax_first_occurrence_fixed (n : Nat) (fill : Int) (es : Row) (h : 
     pruneRow_nofill fill es (List.mem_map.mpr ⟨e, he, hv⟩)
   rw [← densifyRow_prune fill h]
   exact ⟨argmax_first_occurrence n fill _ (pruneRow_wf fill h) hnf, argmin_first_occurrence n fill _ (pruneRow_wf fill h) hnf⟩
+
+/-- **minmax_args_columns.** The whole kernel `_compute_minmax_args` on arrays that store no fill value:
+it lists exactly the columns that have a stored entry, each with the first-occurrence argmax / argmin of
+its dense column (the unlisted columns are all-fill: their answer 0 is the result array's fill value). -/
+theorem minmax_args_columns (maxMode : Bool) (n : Nat) (fill : Int) (es : List (Nat × Nat × Int))
+    (hcol : ∀ j, RowWF n (es.filterMap (colOf j))) (hnf : ∀ e ∈ es, e.2.2 ≠ fill) :
+    (∀ p ∈ computeMinmaxArgs maxMode n fill es,
+      p.2 = (if maxMode then argmaxD else argminD) (densifyRow n fill (es.filterMap (colOf p.1)))) ∧
+    (∀ e ∈ es, ∃ p ∈ computeMinmaxArgs maxMode n fill es, p.1 = e.2.1) ∧
+    (∀ j, (∀ p ∈ computeMinmaxArgs maxMode n fill es, p.1 ≠ j) → es.filterMap (colOf j) = []) := by
+  refine ⟨?_, computeMinmaxArgs_covers maxMode n fill es, ?_⟩
+  · intro p hp
+    have hnf' : ∀ e ∈ es.filterMap (colOf p.1), e.2 ≠ fill := by
+      intro e he
+      obtain ⟨e', he', hk⟩ := List.mem_filterMap.mp he
+      unfold colOf at hk
+      by_cases hj : e'.2.1 = p.1
+      · simp only [hj, if_true, Option.some.injEq] at hk
+        rw [← hk]; exact hnf e' he'
+      · simp [hj] at hk
+    rw [(computeMinmaxArgs_mem maxMode n fill es p hp).1]
+    cases maxMode
+    · exact argmin_first_occurrence n fill _ (hcol p.1) hnf'
+    · exact argmax_first_occurrence n fill _ (hcol p.1) hnf'
+  · intro j hj
+    rw [List.filterMap_eq_nil_iff]
+    intro e he
+    obtain ⟨p, hp, hk⟩ := computeMinmaxArgs_covers maxMode n fill es e he
+    have : e.2.1 ≠ j := fun hh => hj p hp (hk.trans hh)
+    simp [colOf, this]
+
+/-- the answer for a column without stored entries (result fill value 0) is right as well -/
+theorem argminmax_empty_column (n : Nat) (fill : Int) :
+    argmaxD (densifyRow n fill []) = 0 ∧ argminD (densifyRow n fill []) = 0 := by
+  have hwf : RowWF n [] := ⟨List.Pairwise.nil, fun e he => by cases he⟩
+  have h1 := argmax_first_occurrence n fill [] hwf (by simp)
+  have h2 := argmin_first_occurrence n fill [] hwf (by simp)
+  have e1 : argMinMaxCol true n fill [] = 0 := by
+    by_cases hn : n = 0 <;> simp [argMinMaxCol, argmaxD, gapSearch, hn, List.mergeSort]
+  have e2 : argMinMaxCol false n fill [] = 0 := by
+    by_cases hn : n = 0 <;> simp [argMinMaxCol, argminD, gapSearch, hn, List.mergeSort]
+  exact ⟨by rw [← h1, e1], by rw [← h2, e2]⟩
 
 /-- non-vacuity: fill 0 ties with the maximum of a column whose stored values are all below it; the
 first unstored position (1) wins over the later ones; and a stored maximum tie picks the first -/
